@@ -24,6 +24,9 @@ type xconvCase struct {
 	name  string
 	files map[string]string
 	pkgs  []string // packages generated separately and jointly (each has its own output location)
+	// sharedOutput: the converters write into one go package, so helper names legitimately depend on the siblings;
+	// only the outcome and compilability are compared, not the bytes
+	sharedOutput bool
 }
 
 func xconvCases() []xconvCase {
@@ -41,66 +44,81 @@ func xconvCases() []xconvCase {
 			"sh/sh.go": shEnums,
 			"pa/a.go":  enumConv("pa", "// goverter:enum:exclude vx/sh:Col\n// goverter:enum:exclude vx/sh:Hue\n", "\tConvert(source sh.Col) sh.Hue\n"),
 			"pb/b.go":  enumConv("pb", "// goverter:enum:unknown @error\n", "\t// goverter:enum:map ColRed HueRed\n\t// goverter:enum:map ColBlue HueBlue\n\tConvert(source sh.Col) (sh.Hue, error)\n\tList(source []sh.Col) ([]sh.Hue, error)\n"),
-		}, []string{"./pa", "./pb"}},
+		}, []string{"./pa", "./pb"}, false},
 		{"enum-disabled-in-one-converter", map[string]string{
 			"sh/sh.go": shEnums,
 			"pa/a.go":  enumConv("pa", "// goverter:enum no\n", "\tConvert(source []sh.Col) []sh.Hue\n"),
 			"pb/b.go":  enumConv("pb", "// goverter:enum:unknown @panic\n", "\t// goverter:enum:map ColRed HueRed\n\t// goverter:enum:map ColBlue HueBlue\n\tConvert(source sh.Col) sh.Hue\n"),
-		}, []string{"./pa", "./pb"}},
+		}, []string{"./pa", "./pb"}, false},
 		{"enum-disabled-on-one-method", map[string]string{
 			"sh/sh.go": shEnums,
 			"pa/a.go":  enumConv("pa", "// goverter:enum:unknown @ignore\n", "\t// goverter:enum no\n\tA(source struct{ F sh.Col }) struct{ F sh.Hue }\n"),
 			"pb/b.go":  enumConv("pb", "// goverter:enum:unknown @ignore\n", "\t// goverter:enum:map ColRed HueRed\n\t// goverter:enum:map ColBlue HueBlue\n\tB(source sh.Col) sh.Hue\n\tL(source []sh.Col) []sh.Hue\n"),
-		}, []string{"./pa", "./pb"}},
+		}, []string{"./pa", "./pb"}, false},
 		{"skipcopy-in-one-converter", map[string]string{
 			"sh/sh.go": strings.Replace(structs, "\tany any\n", "", 1),
 			"pa/a.go":  sconv("pa", "// goverter:skipCopySameType\n", ""),
 			"pb/b.go":  sconv("pb", "", ""),
-		}, []string{"./pa", "./pb"}},
+		}, []string{"./pa", "./pb"}, false},
 		{"method-level-settings-in-one-converter", map[string]string{
 			"sh/sh.go": strings.Replace(structs, "\tany any\n", "", 1),
 			"pa/a.go":  sconv("pa", "", "\t// goverter:skipCopySameType\n\t// goverter:useZeroValueOnPointerInconsistency\n"),
 			"pb/b.go":  sconv("pb", "", ""),
-		}, []string{"./pa", "./pb"}},
+		}, []string{"./pa", "./pb"}, false},
 		{"ignore-unexported-in-one-converter", map[string]string{
 			"sh/sh.go": strings.Replace(structs, "\tany any\n", "\thidden int\n", 1),
 			"pa/a.go":  sconv("pa", "// goverter:ignoreUnexported\n// goverter:ignoreMissing\n// goverter:matchIgnoreCase\n", ""),
 			"pb/b.go":  sconv("pb", "", ""),
-		}, []string{"./pa", "./pb"}},
+		}, []string{"./pa", "./pb"}, false},
 		{"unexported-function-usable-only-in-its-own-package", map[string]string{
 			"sh/sh.go": fnPkg + "// goverter:variables\n// goverter:extend upper\nvar (\n\tLocal func(source In) Out\n)\n",
 			"pb/b.go":  "package pb\n\nimport \"vx/sh\"\n\n// goverter:variables\n// goverter:extend vx/sh:upper\nvar (\n\tRemote func(source sh.In) sh.Out\n)\n",
-		}, []string{"./sh", "./pb"}},
+		}, []string{"./sh", "./pb"}, false},
 		{"regex-extend-sees-different-functions-per-output-package", map[string]string{
 			"sh/sh.go": fnPkg + "// goverter:variables\n// goverter:extend (?i)normalize.*\nvar (\n\tLocal func(source In) Out\n)\n",
 			"pb/b.go":  "package pb\n\nimport \"vx/sh\"\n\n// goverter:variables\n// goverter:extend vx/sh:(?i)normalize.*\nvar (\n\tRemote func(source sh.In) sh.Out\n)\n",
 			"pc/c.go":  "package pc\n\nimport \"vx/sh\"\n\n// goverter:converter\n// goverter:output:format function\n// goverter:extend vx/sh:(?i)normalize.*\ntype F interface {\n\tConvF(source sh.In) sh.Out\n}\n",
-		}, []string{"./sh", "./pb", "./pc"}},
+		}, []string{"./sh", "./pb", "./pc"}, false},
 		{"map-func-unexported-shared", map[string]string{
 			"sh/sh.go": fnPkg + "// goverter:variables\nvar (\n\t// goverter:map Name | upper\n\tLocal func(source In) Out\n)\n",
 			"pb/b.go":  "package pb\n\nimport \"vx/sh\"\n\n// goverter:variables\nvar (\n\t// goverter:map Name | vx/sh:upper\n\tRemote func(source sh.In) sh.Out\n)\n",
-		}, []string{"./sh", "./pb"}},
+		}, []string{"./sh", "./pb"}, false},
 		{"unexported-function-package-sorts-first", map[string]string{
 			"aa/aa.go": strings.Replace(fnPkg, "package sh", "package aa", 1) + "// goverter:variables\n// goverter:extend upper\nvar (\n\tLocal func(source In) Out\n)\n",
 			"pb/b.go":  "package pb\n\nimport \"vx/aa\"\n\n// goverter:variables\n// goverter:extend vx/aa:upper\nvar (\n\tRemote func(source aa.In) aa.Out\n)\n",
-		}, []string{"./aa", "./pb"}},
+		}, []string{"./aa", "./pb"}, false},
 		{"unexported-function-function-format-sorts-first", map[string]string{
 			"aa/aa.go": strings.Replace(fnPkg, "package sh", "package aa", 1) + "// goverter:converter\n// goverter:output:format function\n// goverter:output:file ./aa_gen.go\n// goverter:output:package vx/aa\n// goverter:extend upper\ntype L interface {\n\tLocal(source In) Out\n}\n",
 			"pb/b.go":  "package pb\n\nimport \"vx/aa\"\n\n// goverter:converter\n// goverter:output:format function\n// goverter:extend vx/aa:upper\ntype R interface {\n\tRemote(source aa.In) aa.Out\n}\n",
-		}, []string{"./aa", "./pb"}},
+		}, []string{"./aa", "./pb"}, false},
 		{"regex-extend-function-package-sorts-first", map[string]string{
 			"aa/aa.go": strings.Replace(fnPkg, "package sh", "package aa", 1) + "// goverter:variables\n// goverter:extend (?i)normalize.*\nvar (\n\tLocal func(source In) Out\n)\n",
 			"pb/b.go":  "package pb\n\nimport \"vx/aa\"\n\n// goverter:variables\n// goverter:extend vx/aa:(?i)normalize.*\nvar (\n\tRemote func(source aa.In) aa.Out\n)\n",
-		}, []string{"./aa", "./pb"}},
+		}, []string{"./aa", "./pb"}, false},
 		{"map-func-unexported-package-sorts-first", map[string]string{
 			"aa/aa.go": strings.Replace(fnPkg, "package sh", "package aa", 1) + "// goverter:variables\nvar (\n\t// goverter:map Name | upper\n\tLocal func(source In) Out\n)\n",
 			"pb/b.go":  "package pb\n\nimport \"vx/aa\"\n\n// goverter:variables\nvar (\n\t// goverter:map Name | vx/aa:upper\n\tRemote func(source aa.In) aa.Out\n)\n",
-		}, []string{"./aa", "./pb"}},
+		}, []string{"./aa", "./pb"}, false},
+		{"function-format-two-files-one-output-package", map[string]string{
+			"sh/sh.go": "package sh\n\ntype N struct{ V int }\ntype M struct{ V int }\ntype In struct{ A N; L []N }\ntype Out struct{ A M; L []M }\n",
+			"pa/a.go":  "package pa\n\nimport \"vx/sh\"\n\n// goverter:converter\n// goverter:output:format function\n// goverter:output:file ../gen/a.go\n// goverter:output:package vx/gen\ntype A interface {\n\tConvA(source sh.In) sh.Out\n}\n",
+			"pb/b.go":  "package pb\n\nimport \"vx/sh\"\n\n// goverter:converter\n// goverter:output:format function\n// goverter:output:file ../gen/b.go\n// goverter:output:package vx/gen\ntype B interface {\n\tConvB(source []sh.In) []sh.Out\n}\n",
+		}, []string{"./pa", "./pb"}, true},
+		{"struct-format-two-files-one-output-package", map[string]string{
+			"sh/sh.go": "package sh\n\ntype N struct{ V int }\ntype M struct{ V int }\ntype In struct{ A N; L []N }\ntype Out struct{ A M; L []M }\n",
+			"pa/a.go":  "package pa\n\nimport \"vx/sh\"\n\n// goverter:converter\n// goverter:output:file ../gen/a.go\n// goverter:output:package vx/gen\ntype A interface {\n\tConvA(source sh.In) sh.Out\n}\n",
+			"pb/b.go":  "package pb\n\nimport \"vx/sh\"\n\n// goverter:converter\n// goverter:output:file ../gen/b.go\n// goverter:output:package vx/gen\ntype B interface {\n\tConvB(source []sh.In) []sh.Out\n}\n",
+		}, []string{"./pa", "./pb"}, true},
+		{"variables-two-blocks-one-package", map[string]string{
+			"sh/sh.go": "package sh\n\ntype N struct{ V int }\ntype M struct{ V int }\ntype In struct{ A N; L []N }\ntype Out struct{ A M; L []M }\n",
+			"pa/a.go":  "package pa\n\nimport \"vx/sh\"\n\n// goverter:variables\nvar (\n\tConvA func(source sh.In) sh.Out\n)\n",
+			"pa/b.go":  "package pa\n\nimport \"vx/sh\"\n\n// goverter:variables\nvar (\n\tConvB func(source []sh.In) []sh.Out\n)\n",
+		}, []string{"./pa"}, true},
 		{"wrap-errors-in-one-converter", map[string]string{
 			"sh/sh.go": "package sh\n\ntype In struct{ A int }\ntype Out struct{ A string }\n\nfunc Conv(i int) (string, error) { return \"\", nil }\n",
 			"pa/a.go":  "package pa\n\nimport \"vx/sh\"\n\n// goverter:converter\n// goverter:wrapErrors\n// goverter:extend vx/sh:Conv\ntype C interface {\n\tConvert(source []sh.In) ([]sh.Out, error)\n}\n",
 			"pb/b.go":  "package pb\n\nimport \"vx/sh\"\n\n// goverter:converter\n// goverter:extend vx/sh:Conv\ntype C interface {\n\tConvert(source []sh.In) ([]sh.Out, error)\n}\n",
-		}, []string{"./pa", "./pb"}},
+		}, []string{"./pa", "./pb"}, false},
 	}
 }
 
@@ -205,7 +223,7 @@ func RunXConvFiltered(run *ev.Run, prefix string) int {
 				if (r.Exit != 0) != anyFail {
 					run.Report(ev.Violation{Site: site + "|exit", Symptom: "joint-run-outcome-differs-from-separate-runs",
 						Detail: fmt.Sprintf("case %s: goverter gen %v exits %d although the separate runs exit %v\n%s", c.name, order, r.Exit, aloneExit, firstN(r.Stderr, 600)), Case: desc})
-				} else if r.Exit == 0 {
+				} else if r.Exit == 0 && !c.sharedOutput {
 					created, changed, _ := fshist.Diff(t, after)
 					got := map[string][]byte{}
 					for _, f := range append(created, changed...) {
